@@ -72,6 +72,12 @@ func checkC09(c c09Case) string {
 	if len(b.sub.Styles) != 1 || len(b.sub.Regions) != 1 || b.sub.Styles["st"] != b.style || b.sub.Regions["rg"] != b.reg {
 		return "style/region maps modified by Add"
 	}
+	// another list being shifted, cut, merged ... is none of this list's business
+	before := timeline(b.sub)
+	unrelatedActivity()
+	if after := timeline(b.sub); after != before {
+		return fmt.Sprintf("the list changed while operations ran on another, unrelated list: %s -> %s", before, after)
+	}
 	// inverse
 	b.sub.Add(-d)
 	k := 0
